@@ -25,10 +25,10 @@ type StrVal struct {
 func (s StrVal) concrete() bool { return s.atom == nil && s.sym == nil }
 
 type Obj struct {
-	id   int
-	v    Value
-	typ  types.Type
-	name string
+	id           int
+	v            Value
+	typ          types.Type
+	name         string
 	externUninit bool
 	written      bool
 }
@@ -86,6 +86,22 @@ type TupleVal []Value
 // Other floating-point values stay opaque.
 type FloatVal struct {
 	t *Term
+	// conc: a concrete float64 that is not (known to be) an integer - the result of arithmetic on
+	// concrete floats. Symbolic floating-point arithmetic is outside the encoder.
+	conc bool
+	f    float64
+}
+
+// concrete returns the float64 a FloatVal stands for when it is concrete.
+func (x FloatVal) concrete() (float64, bool) {
+	if x.conc {
+		return x.f, true
+	}
+	if x.t != nil && x.t.isConst() && x.t.sort == SInt {
+		f, _ := new(big.Float).SetInt(x.t.iv).Float64()
+		return f, true
+	}
+	return 0, false
 }
 
 type OpaqueVal struct {
